@@ -65,7 +65,7 @@ Next ==
          /\ IF v = {} THEN TRUE ELSE PrintT(<< "VIOL", ToJson([n |-> k, c |-> v]) >>)
          /\ IF dis = {} THEN TRUE
             ELSE PrintT(<< "DRIFT", ToJson([n |-> k, c |-> dis,
-                     exp |-> [i \in DOMAIN a.out |-> << a.out[i].ev, a.out[i].pkt.kind, a.out[i].err, a.out[i].id, a.out[i].k >>]]) >>)
+                     exp |-> [i \in DOMAIN a.out |-> << a.out[i].ev, a.out[i].pkt.kind, a.out[i].err, a.out[i].id, a.out[i].k, a.out[i].pkt.topic, a.out[i].pkt.alias, a.out[i].pkt.size, a.out[i].pkt.pid, a.out[i].ms >>]]) >>)
 
 Spec == Init /\ [][Next]_vars
 
